@@ -381,6 +381,47 @@ pub fn from_e(e: &E) -> RuntimeBoxedVal {
             ("BlockHash", [a]) => RSVD::BlockHash { block_number: f(a) },
             ("StorageSlot", [a]) => RSVD::StorageSlot { key: f(a) },
             ("StorageWrite", [k, v]) => RSVD::StorageWrite { key: f(k), value: f(v) },
+            ("CodeCopy", [o, n]) => RSVD::CodeCopy { offset: f(o), size: f(n) },
+            ("ExtCodeCopy", [a, o, n]) => RSVD::ExtCodeCopy {
+                address: f(a),
+                offset:  f(o),
+                size:    f(n),
+            },
+            ("ReturnData", [o, n]) => RSVD::ReturnData { offset: f(o), size: f(n) },
+            ("Return", [d]) => RSVD::Return { data: f(d) },
+            ("Revert", [d]) => RSVD::Revert { data: f(d) },
+            ("SelfDestruct", [t]) => RSVD::SelfDestruct { target: f(t) },
+            ("Create", [v, d]) => RSVD::Create { value: f(v), data: f(d) },
+            ("Create2", [v, d, salt]) => RSVD::Create2 {
+                value: f(v),
+                data:  f(d),
+                salt:  f(salt),
+            },
+            ("Log", [d, topics @ ..]) => RSVD::Log {
+                data:   f(d),
+                topics: topics.iter().map(from_e).collect(),
+            },
+            ("CallWithValue", [g, a, v, d, ro, rs]) => RSVD::CallWithValue {
+                gas:           f(g),
+                address:       f(a),
+                value:         f(v),
+                argument_data: f(d),
+                ret_offset:    f(ro),
+                ret_size:      f(rs),
+            },
+            ("CallWithoutValue", [g, a, d, ro, rs]) => RSVD::CallWithoutValue {
+                gas:           f(g),
+                address:       f(a),
+                argument_data: f(d),
+                ret_offset:    f(ro),
+                ret_size:      f(rs),
+            },
+            ("MappingIndex", [slot, k]) => RSVD::MappingIndex {
+                slot:       f(slot),
+                key:        f(k),
+                projection: None,
+            },
+            ("DynamicArrayIndex", [slot, i]) => RSVD::DynamicArrayIndex { slot: f(slot), index: f(i) },
             _ => RSVD::Concat {
                 values: ch.iter().map(from_e).collect(),
             },
